@@ -694,6 +694,18 @@ func (u *UpServer) handle(b []byte, proto string, conn int, qc qctx, reply func(
 		case "garbage":
 			s.Fault("up_garbage_reply")
 			g := act.Raw
+			if act.Arg >= 2 {
+				// the answer this server would give, cut short somewhere after the
+				// header: the counts promise more than follows, so no decoder
+				// accepts it, but record headers, names and RDATA are begun.
+				// (generated with serial 0: it is not a reply any oracle counts)
+				r := Generate(u.Seed, u.Spec.Tag, q.Token, q.Name, q.Class, q.Type, ans, 0, q.ECS, int64(s.Now()))
+				r.ID = q.WireID
+				full := refdns.Pack(r, PackOptsFor(ans.Compress))
+				if len(full) > 13 {
+					g = full[:12+(act.Arg*7919)%(len(full)-12)]
+				}
+			}
 			if len(g) >= 2 && act.Arg == 1 { // keep the wire id so that it is routed to the waiter
 				g = append([]byte(nil), g...)
 				binary.BigEndian.PutUint16(g, q.WireID)
